@@ -351,3 +351,15 @@ def run_compile_battery(repo, seed=1, count=300):
 @adapter(r":ensures:(agreement|allornothing)|NewGengineErrorListener|no-contract:.*(antlr|Listener)")
 def compile_battery(prop, name, ob, repo, work):
     return run_compile_battery(repo)
+
+
+STMT_IMPORTS = ("fmt", "sort", "strings", "github.com/bilibili/gengine/builder", "github.com/bilibili/gengine/context")
+
+
+def run_stmt_battery(repo, seed=1, count=0):
+    return run_scenario(repo, battery_source("stmt_battery.go.txt", seed, count), "Test_Replay", imports=STMT_IMPORTS)
+
+
+@adapter(r"^base\.\(\*(Statements|Statement|IfStmt|ElseStmt|ElseIfStmt|ForStmt|ForRangeStmt|BreakStmt|ContinueStmt|Assignment)\)\.(Evaluate|Accept\w+):|^iter\.")
+def stmt_battery(prop, name, ob, repo, work):
+    return run_stmt_battery(repo)
